@@ -2,7 +2,7 @@
 # Re-runs, for every seeded change under /verif/seeded, the checks listed in its
 # meta.json (detected_by) against the patch (build overlay; /repo untouched) and
 # reports whether each still detects it. Also runs every listed check on the clean tree.
-cd /verif
+cd "$(dirname "$0")/.." || exit 2
 fail=0
 for d in seeded/*/; do
   id=$(basename $d)
